@@ -562,6 +562,23 @@ def gen_fn_trace(b):
             a["rank"] = rng.randint(1, min(nn, m))
         if fn == "pcovr_covariance" and rng.random() < 0.3:
             a["return_isqrt"] = True
+    elif fn in ("effdim", "oas"):
+        d = rng.randint(1, 4)
+        cov = b.ref({"kind": "spd_stack", "k": 1, "d": d, "seed": _seed(rng), "single": True}, "covariance")
+        a = {"cov": cov} if fn == "effdim" else {"cov": cov, "n": float(rng.randint(3, 30)), "D": d}
+    elif fn in ("check_lr_fit", "check_krr_fit"):
+        nn, m = rng.randint(4, 10), rng.randint(1, 4)
+        XR = b.X(nn, m, ["gauss", "uniform"])
+        yr = b.y_of(XR, rng.randint(1, 2), squeeze=False)
+        if fn == "check_lr_fit":
+            a = {"regressor": {"$est": ["Ridge", {"alpha": 1e-3}]}, "X": b.ref(XR, "data"), "y": b.ref(yr, "target")}
+        else:
+            a = {
+                "regressor": {"$est": ["KernelRidge", {"alpha": 1e-3, "kernel": "linear"}]},
+                "K": b.ref({"kind": "gram", "base": _strip(XR)}, "kernel"),
+                "X": b.ref(XR, "data"),
+                "y": b.ref(yr, "target"),
+            }
     elif fn == "train_test_split":
         nn = rng.randint(6, 14)
         a = {"__pos__": [b.ref(b.X(nn, rng.randint(1, 4), ["gauss"]), "data"), b.ref(b.X(nn, 1, ["gauss"]), "target")]}
@@ -678,8 +695,16 @@ class PurityScenario:
         from . import purity  # noqa: F401
         from sklearn.kernel_ridge import KernelRidge  # noqa: F401
 
+    def anchor_files(self):
+        return [
+            "_selection.py", "sample_selection/_voronoi_fps.py", "sample_selection/_base.py", "neighbors/_sparsekde.py",
+            "clustering/_quick_shift.py", "preprocessing/_data.py", "decomposition/_pcovr.py", "decomposition/_kernel_pcovr.py",
+            "linear_model/_ridge.py", "linear_model/_base.py", "metrics/_reconstruction_measures.py", "metrics/_prediction_rigidities.py",
+            "metrics/_pairwise.py", "utils/_orthogonalizers.py", "utils/_pcovr_utils.py", "model_selection/_split.py",
+        ]
+
     def plan(self, tier):
-        q, f = {"quick": (2500, 2500), "thorough": (60000, 60000)}[tier]
+        q, f = {"quick": (3500, 3500), "thorough": (150000, 150000)}[tier]
         return {"quiet": q, "faults": f, "timeout": 120.0, "budget": 80.0 if tier == "quick" else 3 * 3600.0, "slice": 20}
 
     def generate(self, rng, idx, tier, faults):
